@@ -6,7 +6,21 @@ def run(ctx, rep):
     numeric.r08a(ctx, rep)
     numeric.r08c(ctx, rep)
     numeric.r08d(ctx, rep)
-    numeric.r09c_iszero(ctx, rep) if hasattr(numeric, "r09c_iszero") else None
+    numeric.r08e(ctx, rep)
+    # R08f: the zero test the division procedures guard with
+    sub = type(rep)(rep.prop)
+    numeric.r09c(ctx, sub)
+    rep.rule("R08f", "an exact zero divisor is rejected in every representation: Number::is_zero, the guard of /, quotient, "
+             "remainder and modulo, decides through Number's PartialEq (so 0, 0/1, 0.0 and a zero bignum are all zero), not by "
+             "inspecting one representation; otherwise (/ 7 z) for an exact zero z carried as 0/1 returns +inf.")
+    got = False
+    for o in sub.obs:
+        if o.key == "R09c|Number::is_zero":
+            o.rule, o.key = "R08f", "R08f|Number::is_zero"
+            rep.obs.append(o)
+            got = True
+    if not got:
+        rep.anchor_lost("R08f", "no obligation on Number::is_zero")
     rep.not_decided += ["numerical results (a checked operation whose fallback computes the wrong value)",
                         "the 2^-50 error bound of inexact fallbacks", "representation independence of results",
                         "whether an inexact fallback is taken only when the exact result is unrepresentable"]
